@@ -88,7 +88,7 @@ structure FillRes where
 walk replaces every placeholder by its value -/
 def fillParams (σ : Schema) (P C : Nat) (q : Node) (vs : List Nat) : FillRes :=
   let found := getParams σ P q
-  if vs.length < found.length then ⟨⟨none, q, (), []⟩, true, 0⟩
+  if vs.length < found.length then ⟨⟨none, q, (), [], true⟩, true, 0⟩
   else ⟨walk σ (cbFillMap P C ((found.map Node.tag).zip vs)) q (), false, vs.length - found.length⟩
 
 /-! ## `PreparedStatementPlanner` -/
